@@ -85,6 +85,16 @@ func tmRun(t *testing.T, lines []string) []string {
 						timers[k].Stop()
 					}
 				}, time.Duration(atoi(f[3]))*time.Millisecond)
+			case "timeoutself": // tm timeoutself <k> <period> <n>: the callback re-arms its own timeout (Refresh) on its first n runs
+				k, left := atoi(f[2]), atoi(f[4])
+				inner := cb(k)
+				timers[k] = utils.SetTimeout(func() {
+					inner()
+					if left > 0 {
+						left--
+						timers[k].Refresh()
+					}
+				}, time.Duration(atoi(f[3]))*time.Millisecond)
 			case "timeoutstop": // created and cancelled back to back: the waiter goroutine has not run yet
 				k := atoi(f[2])
 				timers[k] = utils.SetTimeout(cb(k), time.Duration(atoi(f[3]))*time.Millisecond)
@@ -307,6 +317,29 @@ func famTimer(t *testing.T, r *Rec) {
 			}
 			if fault != "" || outs[2] != "fired="+strings.Join(want, ",")+" g=0" || outs[3] != "fired=- g=0" {
 				r.Violate("C19", "C19/self-cancel", fmt.Sprintf("interval cancelled from its own callback on run %d: %s / %s %s", n, outs[2], outs[3], fault), lines)
+			}
+		}
+	}
+	// a timeout whose callback re-arms it (Refresh of a fired timer from inside its own callback): it runs once per
+	// period, n+1 times; stopping it afterwards returns and leaves nothing behind
+	for _, n := range []int{1, 3} {
+		for _, p := range []int{5, 10} {
+			lines := []string{"tm cfg", fmt.Sprintf("tm timeoutself 0 %d %d", p, n), fmt.Sprintf("tm sleep %d", p*(n+3)), "tm refresh 0", fmt.Sprintf("tm sleep %d", p-1), "tm stop 0", "tm sleep 50"}
+			outs, fault := runIsolated(lines, 20*time.Second)
+			for len(outs) < len(lines) {
+				outs = append(outs, "fault:"+fault)
+			}
+			r.scenarios++
+			for i, l := range lines {
+				r.Op(l, outs[i])
+			}
+			r.Cover(fmt.Sprintf("timer/timeoutself/%d/%d", p, n))
+			var want []string
+			for i := 1; i <= n+1; i++ {
+				want = append(want, fmt.Sprintf("0@%d", i*p))
+			}
+			if fault != "" || outs[2] != "fired="+strings.Join(want, ",")+" g=0" || outs[6] != "fired=- g=0" {
+				r.Violate("C19", "C19/refresh-from-callback", fmt.Sprintf("timeout re-armed from its own callback %d times: %s ... %s %s", n, outs[2], outs[6], fault), lines)
 			}
 		}
 	}
